@@ -831,3 +831,154 @@ def C12(ck):
     ck.assumptions += ['exploration: the arithmetic of the coders is not modelled']
     for f in (base + '.ndjson', base + '.sum'):
         os.remove(f)
+
+
+# ------------------------------------------------------------------------------------------------
+LEVEL['C10'] = 'other'
+
+
+def build_kzref_ref():
+    """The pinned reference snapshot (commit 76efab5) built as an executable reference model."""
+    out = os.path.join(kzv.VERIF, '.build', 'bin', 'kzref-ref')
+    refdir = os.path.join(kzv.VERIF, '.build', 'ref')
+    if os.path.exists(out):
+        return out
+    os.makedirs(refdir, exist_ok=True)
+    rc, so, se, dt = kzv.run(['tar', '-xzf', os.path.join(kzv.VERIF, 'reference', 'kanzi-v2-76efab5.tar.gz'), '-C', refdir])
+    if rc != 0:
+        raise kzv.ToolFailure('cannot unpack the reference snapshot: ' + se)
+    mod = os.path.join(refdir, 'go.ref.mod')
+    with open(mod, 'w') as fh:
+        fh.write(open(os.path.join(kzv.HARNESS, 'go.mod')).read().replace('/repo/v2', os.path.join(refdir, 'kanzi-ref', 'v2')))
+    open(os.path.join(refdir, 'go.ref.sum'), 'a').close()
+    os.makedirs(os.path.dirname(out), exist_ok=True)
+    rc, so, se, dt = kzv.run(['go', 'build', '-modfile=' + mod, '-o', out, './cmd/kzref'], timeout=900, env=kzv.goenv(), cwd=kzv.HARNESS)
+    if rc != 0:
+        raise kzv.ToolFailure('cannot build the reference snapshot: ' + se[-2000:])
+    return out
+
+
+def C10(ck):
+    import shutil
+    T = thorough(ck)
+    rnd = random.Random(ck.seed * 17 + 1)
+    ref = build_kzref_ref()
+    cur = kzv.build_harness(name='kzref-cur', pkg='./cmd/kzref')
+    kzh = kzv.build_harness()
+    base = os.path.join(kzv.BUILD, 'c10_%d' % os.getpid())
+    os.makedirs(base, exist_ok=True)
+    events = []
+    try:
+        # (a) the golden corpus, written by the reference encoder before any fix, decoded by the current decoder
+        man = json.load(open(os.path.join(kzv.VERIF, 'golden', 'manifest.json')))
+        files = [os.path.join(kzv.VERIF, 'golden', e['file']) for e in man['entries']]
+        outs = []
+        for jobs in ('1', '3'):
+            rc, so, se, dt = kzv.run([cur, 'dec', jobs] + files, timeout=1800)
+            if rc != 0:
+                raise kzv.ToolFailure('current decoder front end failed: ' + se[-1500:])
+            outs.append([json.loads(l) for l in so.splitlines() if l.startswith('{')])
+        for k, e in enumerate(man['entries']):
+            for o in outs:
+                r = o[k]
+                events.append({'ev': 'GOLDEN', 'file': e['file'], 'cfg': '%s&%s' % (e['transform'], e['entropy']), 'want': e['orig'],
+                               'got': r.get('dig', 'error') if r.get('ok') else 'error: ' + r.get('err', '')[:80]})
+        # (b) live differential against the executable reference: fresh (input, configuration) pairs
+        n = 1500 if T else 220
+        shapes = ['random', 'text', 'utf8', 'utf8wide', 'dna', 'dnalines', 'x86', 'wav', 'bmp', 'runs', 'smallalpha', 'skew', 'zeros', 'gzipmagic',
+                  'mixed', 'ramp', 'numeric', 'html', 'sparse', 'exe']
+        reqs = []
+        for i in range(n):
+            k = rnd.randrange(4)
+            if k == 0:
+                t, e = rnd.choice(PRESETS).split('&')
+            elif k == 1:
+                t, e = rnd.choice(T_NAMES), rnd.choice(E_NAMES)
+            else:
+                t, e = '+'.join(rnd.choice(T_NAMES) for _ in range(rnd.randint(1, 4))), rnd.choice(E_NAMES)
+            size = rnd.choice([0, 1, 100, 5000, 20000, 70000, 150000])
+            if e in ('CM', 'TPAQ', 'TPAQX'):
+                size = min(size, 20000)
+            size += rnd.randrange(50)
+            reqs.append({'transform': t, 'entropy': e, 'block': rnd.choice([1024, 4096, 16384, 65536, 262144]), 'jobs': rnd.choice([1, 2, 4]),
+                         'ck': rnd.choice([0, 32, 64]), 'hint': rnd.choice([-1, 0, size]), 'shape': rnd.choice(shapes), 'seed': ck.seed * 100000 + i,
+                         'size': size, 'out': os.path.join(base, 'l%05d.knz' % i)})
+        rc, so, se, dt = kzv.run([ref, 'enc', json.dumps(reqs)], timeout=3600)
+        if rc != 0:
+            raise kzv.ToolFailure('reference encoder front end failed: ' + se[-1500:])
+        enc = [json.loads(l) for l in so.splitlines() if l.startswith('{')]
+        okreq = [(r, e) for r, e in zip(reqs, enc) if e.get('ok')]
+        lf = [r['out'] for r, e in okreq]
+        rc, so1, se, dt = kzv.run([ref, 'dec', '1'] + lf, timeout=3600)
+        rc2, so2, se2, dt2 = kzv.run([cur, 'dec', str(rnd.choice([1, 2, 4]))] + lf, timeout=3600)
+        if rc != 0 or rc2 != 0:
+            raise kzv.ToolFailure('decoder front end failed: ' + se[-800:] + se2[-800:])
+        d1 = [json.loads(l) for l in so1.splitlines() if l.startswith('{')]
+        d2 = [json.loads(l) for l in so2.splitlines() if l.startswith('{')]
+        nref = 0
+        for (r, e), a, b in zip(okreq, d1, d2):
+            refok = bool(a.get('ok')) and a.get('dig') == e['orig']
+            nref += refok
+            events.append({'ev': 'LIVE', 'cfg': '%s&%s B=%d ck=%d %s n=%d' % (r['transform'], r['entropy'], r['block'], r['ck'], r['shape'], r['size']),
+                           'refok': refok, 'ref': a.get('dig', ''), 'curok': bool(b.get('ok')), 'cur': b.get('dig', ''), 'err': b.get('err', '')[:100], 'req': json.dumps(r)})
+        # (c) container layout of streams written by the current encoder (KzFormat)
+        tracef = os.path.join(base, 'trace.ndjson')
+        rc, so, se, dt = kzv.run([kzh, 'fmt', '-n', str(1500 if T else 250), '-seed', str(ck.seed), '-out', tracef] + (['-thorough'] if T else []), timeout=3600)
+        if rc != 0:
+            raise kzv.ToolFailure('fmt driver failed: ' + se[-1500:])
+        nfmt = int(so.strip() or 0)
+        with open(tracef, 'a') as fh:
+            for e in events:
+                fh.write(json.dumps(e) + '\n')
+        res = kzv.validate_trace('Trace_Format', tracef, timeout=1800)
+        if res.error or res.violated:
+            raise kzv.ToolFailure('Trace_Format failed: %s %s\n%s' % (res.error, res.violated, res.out[-1500:]))
+        tr = kzv.read_ndjson(tracef)
+        seen = set()
+        for e, pred in _violations_from(res.out, tr):
+            key = (pred, e.get('cfg', '')[:40])
+            if key in seen:
+                continue
+            seen.add(key)
+            keep = None
+            if e['ev'] == 'LIVE':
+                try:
+                    os.makedirs(kzv.REPLAYS, exist_ok=True)
+                    req = json.loads(e['req'])
+                    keep = os.path.join(kzv.REPLAYS, 'C10_live_%d_%s' % (ck.seed, os.path.basename(req['out'])))
+                    shutil.copy(req['out'], keep)
+                except (OSError, ValueError):
+                    pass
+            ck.violation({'kind': e['ev'], 'pred': pred, 'cfg': e.get('cfg'), 'file': e.get('file'), 'got': e.get('got') or e.get('cur'), 'err': e.get('err')},
+                         {'cmd': 'kzref dec', 'stream_file': keep or e.get('file'), 'event': {k: v for k, v in e.items() if k != 'req'}}, name='fmt')
+        ck.cov['programs'] = len(events) + nfmt
+        ck.cov['disagreements_checked'] = len(man['entries']) * 2 + nref
+        ck.cov['evaluations'] += len(events) + nfmt
+        ck.cov['distinct_nontrivial'] += len(man['entries']) + nref + nfmt
+        ck.cov['traces_validated_against_impl'] += len(events) + nfmt
+        ck.cov['states'] += res.distinct
+        ck.cov['transitions'] += res.generated
+        ck.cov['golden_streams'] = len(man['entries'])
+        ck.cov['live_pairs'] = {'requested': n, 'reference_encodes': len(okreq), 'reference_round_trips': nref}
+        ck.cov['container_streams'] = nfmt
+        ck.sample({'GOLDEN': events[0]})
+        lives = [e for e in events if e['ev'] == 'LIVE']
+        if lives:
+            ck.sample({'LIVE': {k: v for k, v in lives[0].items() if k != 'req'}})
+        ck.sample({'HDR': tr[0]})
+        ck.cov['explanation'] = ('differential replay against an executable reference: the pinned snapshot 76efab5 of kanzi-go (built from /verif/reference) is the '
+                                 'reference model for everything inside the codecs that TLA+ cannot express (hash seeds, static dictionary, state tables, chunk sizes); '
+                                 'the golden corpus archives its encoder output; the container layer is specified in KzFormat.tla and checked by TLC on streams of '
+                                 'the current encoder parsed by an independent parser')
+    finally:
+        shutil.rmtree(base, ignore_errors=True)
+    ck.cov['rule'] = ('golden: 128 streams written by the reference encoder (every transform, every entropy codec, checksum 0/32/64, the ten level presets, chains, '
+                      'both BWT regimes, 8-stage chain) decoded with jobs 1 and 3, digest must equal the recorded one; live: random (input, configuration) pairs '
+                      'encoded by the reference encoder, the current decoder must output what the reference decoder outputs; container: HDR/BLK/END events '
+                      'judged by Trace_Format.tla against KzFormat.tla and the encoder hooks. non-trivial = golden stream, live pair on which the reference '
+                      'round-trips, container stream')
+    ck.assumptions += ['equivalence with the reference for ALL inputs is not decided', 'the reference snapshot builds offline with the same toolchain']
+
+
+PRESETS = ["NONE&NONE", "LZX&NONE", "DNA+LZ&HUFFMAN", "TEXT+UTF+PACK+MM+LZX&HUFFMAN", "TEXT+UTF+EXE+PACK+MM+ROLZ&NONE", "TEXT+UTF+BWT+RANK+ZRLT&ANS0",
+           "TEXT+UTF+BWT+SRT+ZRLT&FPAQ", "LZP+TEXT+UTF+BWT+LZP&CM", "EXE+RLT+TEXT+UTF+DNA&TPAQ", "EXE+RLT+TEXT+UTF+DNA&TPAQX"]
